@@ -114,6 +114,17 @@ pub fn run(rep: &'static Report) {
         let d = json!(l);
         wss.push((l.to_ws(), d));
     }
+    // every layout in which the name has exactly ONE definition in the whole workspace (wherever it
+    // lives: visible, in a sibling directory, in another test module, in a module nobody imports):
+    // requests that cannot see it must not count as usages of it
+    for l in Layout::enumerate(2, false) {
+        let ws = l.to_ws();
+        let ndefs: usize = ws.files.iter().map(|f| f.items.iter().filter(|i| matches!(i, crate::ws::Item::Fixture { name, .. } if name == "fx")).count()).sum();
+        if ndefs == 1 && !l.distractors[3] && !l.distractors[4] {
+            let d = json!({"single_definition": l});
+            wss.push((ws, d));
+        }
+    }
     for ch in crate::checks::c02::Chain::enumerate(2, 3).into_iter().step_by(if thorough { 1 } else { 9 }) {
         let d = json!(ch);
         wss.push((ch.to_ws(), d));
